@@ -132,7 +132,8 @@ def run(chk: Check) -> None:
         "the matched region by a syntactic normal form (ring/field/exponent laws); a difference is reported only "
         "with a numeric witness of my own term algebra that satisfies the path facts. The context above the region "
         "is a summary cell and its integrity is C07's clause, so congruence lifts the identity to the whole "
-        "expression at every position. Not decided: floating-point rounding of folded constants, non-finite "
+        "expression at every position. factor(), which the judgement summarises by its contract, is checked against "
+        "that contract (C01.R3 = the clause C16.R4). Not decided: floating-point rounding of folded constants, non-finite "
         "constants, trees outside W (chained equations, child-on-left unary nodes).")
     chk.not_decided = ["floating point rounding", "non-finite constants", "BalancedMove value (see C02)"]
     chk.assumptions = ["input trees are well formed (W): consistent links, arity, Equal only at the root, "
@@ -142,5 +143,11 @@ def run(chk: Check) -> None:
     recs = rule_records(chk)
     run_r1(chk, recs)
     run_r2(chk, prog)
+    # the value judgement summarises factor() by its contract (every entry k -> c is a factor pair: k * c == value; for a
+    # positive value all divisor pairs are present): the clause of C16 that checks the source against this contract runs
+    # under this property as well
+    from sa.summaries import Summaries
+    from .c16 import run_factor
+    run_factor(chk.renamed({"C16.R4": "C01.R3"}), prog, Summaries(prog))
     chk.exhaustive = True
     chk.max_undecided = 0
